@@ -57,7 +57,7 @@ def judge(name, r, what, cls):
 
 
 def values():
-    return A.V() + [{"kty": "RSA", "n": "AQAB", "e": "AQAB"}, "ECDH-ES", "A128GCM", "DEF", "none", ["b64"], ["alg"], ["alg", "enc"], "alg enc zip", "AAAA", "@@", 8, 2 ** 32, 2 ** 63]
+    return A.V() + [{"kty": "RSA", "n": "AQAB", "e": "AQAB"}, "ECDH-ES", "A128GCM", "DEF", "none", ["b64"], ["alg"], ["alg", "enc"], "alg enc zip", "AAAA", "@@", 8, 2 ** 32, 2 ** 63, 1.0, 4096.0, 2147483647.0]
 
 
 HEADER_NAMES = ["alg", "enc", "zip", "kid", "typ", "cty", "crit", "jku", "jwk", "x5u", "x5c", "x5t", "x5t#S256", "b64",
@@ -638,6 +638,45 @@ def h_nested(ctx):
     return Outcome("|".join(sorted(set(bs))), vs, nontrivial=(what, repr(ctx.choices)), n=len(bs))
 
 
+# ------------------------------------------------------------------ several recipients of one algorithm: the header of each is hostile input
+def h_recipient_order(ctx):
+    """General JSON with two recipients of the SAME algorithm; one entry is genuine (made by the reference for the holder's key), the
+    other carries one substituted / deleted header member; both orders; all / any recipient rule."""
+    from joserfc import jwe
+    from joserfc.jwk import KeySet
+    alg, kind = ctx.choose("alg/key", [("ECDH-ES+A128KW", "P-256"), ("A128GCMKW", "oct16"), ("PBES2-HS256+A128KW", "oct20"), ("ECDH-ES+A128KW", "X25519")])
+    order = ctx.choose("order", ["genuine-first", "hostile-first"])
+    verify_all = ctx.choose("verify_all_recipients", [True, False])
+    name = ctx.choose("member", ["epk", "iv", "tag", "p2s", "p2c", "alg", "kid", "apu", "foo"])
+    v = ctx.choose("value", ["<deleted>"] + values())
+    jwks = [scen.key(kind, 0), scen.key(kind, 1)]
+    recs = []
+    for j, jwk in enumerate(jwks):
+        r = {"jwk": jwk if jwk["kty"] == "oct" else rjwk.public_of(jwk), "header": {"alg": alg, "kid": f"r{j}"}}
+        if alg.startswith("PBES2"):
+            r["p2c"] = 8
+        recs.append(r)
+    wire = rjwe.encrypt({"enc": "A128GCM"}, CLAIMS, recs, form="general", rand=rjwe.Drbg(repr((alg, kind)).encode()))
+    hostile = 1 if order == "genuine-first" else 0
+    if order == "hostile-first":
+        wire["recipients"].reverse()
+    h = wire["recipients"][hostile]["header"]
+    if v == "<deleted>":
+        if name not in h:
+            return Outcome("noop", [], nontrivial=None)
+        h.pop(name)
+    else:
+        h[name] = v
+    if isinstance(h.get("p2c"), int) and not isinstance(h.get("p2c"), bool) and 10 ** 5 < h["p2c"] < 2 ** 31:
+        return Outcome("out-of-scope", [], nontrivial=None)
+    keys = KeySet([A.jkey({**jwk, "kid": f"r{j}"}, "dict") for j, jwk in enumerate(jwks)])
+    reg = jwe.JWERegistry(algorithms=[alg, "A128GCM"], verify_all_recipients=verify_all)
+    what = f"{alg}/{kind} {order} verify_all={verify_all}: hostile entry header {name}:={v!r}"
+    cls = f"second-recipient header member {name} = JSON {type(v).__name__ if v != '<deleted>' else 'deleted'} ({order})"
+    b, vs = judge("jwe.decrypt_json", call(jwe.decrypt_json, copy.deepcopy(wire), keys, registry=reg), what, cls)
+    return Outcome(b, vs, nontrivial=(alg, kind, order, verify_all, name, repr(v)))
+
+
 PARTS = [
     Part("key-mismatch", h_key_mismatch, split_depth=3),
     Part("jws-header-values", h_jws_header, bound={"quick": 1, "thorough": 1}, split_depth=3),
@@ -645,5 +684,6 @@ PARTS = [
     Part("compact-segments", h_segments, bound={"quick": 1, "thorough": 1}, split_depth=2),
     Part("inner-data", h_inner, split_depth=2),
     Part("nested-header-values", h_nested, split_depth=2),
+    Part("several-recipients-one-hostile-header", h_recipient_order, split_depth=3),
     Part("json-shapes", h_json_shapes, bound={"quick": 1, "thorough": 1}, split_depth=3),
 ]
